@@ -23,12 +23,12 @@ import re
 import vf, walk, tmplgen
 
 SPELL = {
-    "VAR": ["{var:a", "{var:list[0]", "{var:lv[x]", "{var:"],
-    "RAW": ["{raw:a", "{raw:obj[k1]", "{raw:"],
-    "MATH": ["{math:1+1", "{math: {var:a}*2", "{math:", "{math: 1 <"],
+    "VAR": ["{var:a", "{var:list[0]", "{var:lv[x]", "{var:", "{var:lv]", "{var:a]", "{var:]", "{var:a[", "{var:lv[0]]", "{var:a[b]c]", "{var:[", "{var:lv[]"],
+    "RAW": ["{raw:a", "{raw:obj[k1]", "{raw:", "{raw:lv]", "{raw:]"],
+    "MATH": ["{math:1+1", "{math: {var:a}*2", "{math:", "{math: 1 <", "{math:{var:lv]}+1", "{math:{var:a]"],
     "SVAR": ["{svar:phrase, ", "{svar:phrase", "{svar:"],
     "IIF": ['{if case="1" true="T" false="F"', "{if case='{var:a}' true='", '{if case="', "{if "],
-    "LOOP": ['<loop set="list" value="lv">', "<loop value='lv' sort='ascend'>", '<loop set="recs" group="year" value="lv">', "<loop ", '<loop set="obj'],
+    "LOOP": ['<loop set="list" value="lv">', '<loop set="list]" value="lv">', '<loop set="]" value="lv">', "<loop value='lv' sort='ascend'>", '<loop set="recs" group="year" value="lv">', "<loop ", '<loop set="obj'],
     "LOOPEND": ["</loop>"],
     "IF": ['<if case="1">', "<if case='{var:a} > 0'>", '<if case="0"', "<if "],
     "IFEND": ["</if>"],
@@ -188,6 +188,11 @@ def main():
                 m = text[:min(p, q)] + text[max(p, q):]
             cases.append((m, vj, "mutation"))
     # (c) quote / bracket characters inside attribute values and paths
+    for tail in ["{var:]}", "{var:a]}", "{var:a[b]]}", "{raw:]}", '<loop value="lv">{var:lv]}', '<loop value="lv">{var:lv]}</loop>', "{math:{var:]}}", '{if case="{var:a]}" true="1"}',
+                 "{svar:phrase, {var:]}}", '<if case="{var:]}">', "{var:lv[0]]}"]:
+        for pre in ["", "x", '<loop set="list" value="lv">']:
+            for vjx in ['{"]":1,"a]":2,"a":{"b":3},"lv":[4],"list":[[5]],"phrase":"{0}"}', '{"a":1}']:
+                cases.append((pre + tail, vjx, "brackets"))
     for k in ['it\'s', '"x"', 'a}b', 'a{b', 'a]b', 'a[b', 'a>b', 'a<b', 'a"b\'c']:
         for tpl in ['{var:obj[%s]}', '{if case="{var:obj[%s]}" true="{var:obj[%s]}" false="n"}', "{if case='1' true='{raw:obj[%s]}' false='{math:{var:obj[%s]}+1}'}",
                     '<loop set="obj[%s]" value="lv">{var:lv}</loop>', '<if case="{var:obj[%s]} == 1">y<else>n</if>', '{svar:phrase, {var:obj[%s]}, {math:{var:obj[%s]}}}',
